@@ -265,7 +265,7 @@ var protocolNames = map[string]bool{
 	"newClosedState": true, "newOpenState": true, "newHalfOpenState": true, "newStats": true, "newCountingStats": true, "newTimedStats": true,
 	"currentBucket": true, "remove": true, "reset": true, "setNext": true, "state": true,
 	"executionCount": true, "failureCount": true, "failureRate": true, "successCount": true, "successRate": true,
-	"bodyReader": true, "doRequest": true, "MergeContexts": true, "FailureResult": true, "WithDone": true, "WithFailure": true, "DelayFunc": true,
+	"bodyReader": true, "MergeContexts": true, "FailureResult": true, "WithDone": true, "WithFailure": true, "DelayFunc": true,
 	"Builder": true, "RetryPolicyBuilder": true, "BuilderWithFunc": true, "BuilderWithResult": true, "BuilderWithError": true,
 	"RandomDelay": true, "RandomDelayFactor": true, "RandomDelayInRange": true, "RoundDown": true, "NewStopwatch": true, "NewClock": true,
 	"Run": true, "RunWithExecution": true, "GetWithExecution": true, "RunAsync": true, "GetAsync": true, "RunWithExecutionAsync": true, "GetWithExecutionAsync": true,
@@ -528,7 +528,15 @@ func (ev *Evaluator) LoadField(st *State, ptr *T, fields ...string) *T {
 					// promoted field of an embedded struct (by value or by pointer)
 					for j := 0; j < s.NumFields() && idx < 0; j++ {
 						if !s.Field(j).Embedded() {
-							continue
+							// a named grouping part: a by-value struct of the same package
+							nt, isN := s.Field(j).Type().(*types.Named)
+							sn, isSN := stt.(*types.Named)
+							if !isN || !isSN || nt.Obj().Pkg() != sn.Obj().Pkg() || nt.Obj().Exported() {
+								continue
+							}
+							if _, isStruct := nt.Underlying().(*types.Struct); !isStruct {
+								continue
+							}
 						}
 						et := s.Field(j).Type()
 						if pt, isP := et.Underlying().(*types.Pointer); isP {
@@ -608,7 +616,18 @@ func (ev *Evaluator) Run(fn *ssa.Function) []*Path {
 	return ev.RunFrom(st, fn, args, free)
 }
 
+// Param: the term of fn's parameter that upstream calls `name`. Parameters are addressed by their position in the
+// reviewed tree (fingerprints.json records the upstream parameter names of every function), so renaming a parameter
+// or a receiver changes nothing; functions the reference does not know are addressed by the current name.
 func (ev *Evaluator) Param(fn *ssa.Function, name string) *T {
+	if names, ok := refParamNames(ev.P.CanonFuncName(fn)); ok && len(names) == len(fn.Params) {
+		for i, n := range names {
+			if n == name {
+				p := fn.Params[i]
+				return ev.TS.intern(&T{Op: "param", Aux: p.Name(), Typ: p.Type()})
+			}
+		}
+	}
 	for _, p := range fn.Params {
 		if p.Name() == name {
 			return ev.TS.intern(&T{Op: "param", Aux: p.Name(), Typ: p.Type()})
